@@ -11,7 +11,7 @@ Extraction "../ocaml/extracted/model.ml"
   Funcs.call_default Funcs.construct_type Interp.run Interp.exec Interp.mkEnv
   Text.utf8_encode Text.utf8_decode Lexer.tz_init Lexer.tz_next Lexer.tz_peek Lexer.tz_loc Lexer.lex
   Parser.parse_program Parser.p_expr
-  Compile.compile_source Compile.resolve
+  Compile.compile_source Compile.compile_checked Compile.resolve
   WfCode.wf_code WfCode.code_depth
   Serde.ser_program Serde.ser_value Serde.de_value Sql.sql_expr Json.json_of_value Json.value_of_json Json.canon Context.run_ops Context.empty_world
   Wf.wf Arith.arith_spec Arith.widen Arith.num_of.
